@@ -327,6 +327,7 @@ func newReport(prop string, p *Prog) *Report {
 	pathsProg = p
 	helperEdgeMemo = map[string]bool{}
 	mergedGuardCache = map[*ssa.BasicBlock][]Guard{}
+	resultIntervalMemo = map[string]*Itv{}
 	return &Report{Prop: prop, P: p, Analysed: map[string]bool{}, keys: map[string]int{}}
 }
 
